@@ -122,12 +122,12 @@ ConvOne(c, Arow, Frow) ==          \* one batch entry, one output channel: sum o
                    s  == Src(c, i, a)
                IN IF s = ZERO THEN 0
                   ELSE Arow[ci].val[Lin(s \o I, sA) + 1] * Frow[ci].val[Lin(a \o J, sF) + 1]])])]
-Convolve(c, A, F) == [b \in 1..Len(A) |-> [co \in 1..Len(F) |-> ConvOne(c, A[b], F[co])]]
+Convolve(c, A, F) == Eager([b \in 1..Len(A) |-> Eager([co \in 1..Len(F) |-> ConvOne(c, A[b], F[co])])])
 
 (* fused convolve-and-contract: image index r is contracted with filter index r, r = 1..kA *)
 ConvContractOne(c, Arow, Frow) ==
   LET full == ConvOne(c, Arow, Frow)
       kA   == Arow[1].k
   IN MultiContract(full, [r \in 1..kA |-> <<r, kA + r>>])
-ConvContract(c, A, F) == [b \in 1..Len(A) |-> [co \in 1..Len(F) |-> ConvContractOne(c, A[b], F[co])]]
+ConvContract(c, A, F) == Eager([b \in 1..Len(A) |-> Eager([co \in 1..Len(F) |-> ConvContractOne(c, A[b], F[co])])])
 =============================================================================
